@@ -5,6 +5,7 @@
 From Coq Require Import List String Ascii Bool Arith.
 From Spil Require Import Base.Str Base.Dict Base.Outcome Base.PyPath Resolva.Resolver Conf.Conf Conf.Routing Conf.WF Sid.Sid
   Search.Unfold Search.Finders FS.Fs Data.Data Data.Crash Path.PathProofs Data.DataProofs Data.CrashProofs.
+From Spil Require Import Sid.SidProofs Path.UnambiguousDefs Search.TreeListDefs Data.SidLevelDefs Data.CreateDefs Data.CreateFs Data.CreateProofs.
 From SpilGen Require Hamlet.
 Import ListNotations.
 Local Open Scope string_scope.
@@ -60,3 +61,125 @@ Theorem C15_same_stem_shares : forall suf d stem, mem_c "/" stem = false ->
   sidecar_path suf (d ++ "/" ++ stem ++ ".ma") = sidecar_path suf (d ++ "/" ++ stem ++ ".mb").
 Proof. exact sidecar_same_stem_ma_mb. Qed.
 Print Assumptions C15_same_stem_shares.
+
+(** ** "an entity exists exactly from the moment it or a descendant was created": an invariant over histories of creations
+    (Data/CreateProofs.v).  [dataset_ok] (the tree holds exactly the paths of a set of Sids, everything else resolves to nothing)
+    is kept by every successful creation of a Sid passing the decidable guard [create_guardb] (good values, no hidden component,
+    and path templates that mirror the Sid hierarchy on this Sid: every directory above its path resolves to nothing or to
+    one of its own prefix Sids); so after ANY history from the empty tree the members are exactly the created Sids and their
+    ancestors that have a path, and exists() says so.  Creations with data add a hidden sidecar, which at a level with a free
+    value resolves to a Sid (the junk class "sidecar files"): they are covered by the history correspondence, not by this theorem. *)
+
+(* one successful creation *)
+Theorem C15_create_step :
+  forall (c : Conf) (Ld : Loaded),
+  load c = Some Ld ->
+  wf_loadedb Ld = true ->
+  paths_unambiguousb Ld = true ->
+  forall (Rt : Routing) (cfg : string) (E : list sid) (F F' : fs) (s : string) (x : sid),
+  dataset_ok Ld (default_cfg Ld cfg) E F ->
+  fs_inv F ->
+  w_create Ld Rt F cfg s [] = Ok (F', true) ->
+  Sid Ld s = Ok x ->
+  create_guardb Ld (default_cfg Ld cfg) x = true ->
+  exists E' : list sid,
+    dataset_ok Ld (default_cfg Ld cfg) E' F' /\
+    fs_inv F' /\
+    (forall e : sid,
+     In e E' <->
+     In e E \/ e = x \/ (exists k pe : string, get_as Ld x k = Ok e /\ sid_path Ld e (default_cfg Ld cfg) = Ok (Some pe))).
+Proof. exact create_step_spec. Qed.
+Print Assumptions C15_create_step.
+
+(* what a failing creation can be (and, the outcome carrying no new state, it changes nothing) *)
+Theorem C15_create_raise :
+  forall (Ld : Loaded) (Rt : Routing) (F : fs) (cfg s : string) (data : dict string) (e : exn),
+  w_create Ld Rt F cfg s data = Raise e ->
+  Sid Ld s = Raise e \/
+  (exists x : sid,
+     Sid Ld s = Ok x /\
+     (sid_path Ld x (default_cfg Ld cfg) = Raise e \/
+      sid_path Ld x (default_cfg Ld cfg) = Ok None /\ e = SpilException \/
+      (exists p : string,
+         sid_path Ld x (default_cfg Ld cfg) = Ok (Some p) /\
+         (fs_exists F p = true /\ e = SpilException \/
+          fs_exists F p = false /\ create_op Ld Rt F x p = Raise OSError /\ e = OSError \/
+          fs_exists F p = false /\ data <> [] /\ (e = JSONDecodeError \/ e = OSError))))).
+Proof. exact create_raise. Qed.
+Print Assumptions C15_create_raise.
+
+(* creating fails with SpilException exactly when the entity exists already *)
+Theorem C15_create_existing_iff :
+  forall (c : Conf) (Ld : Loaded),
+  load c = Some Ld ->
+  wf_loadedb Ld = true ->
+  paths_unambiguousb Ld = true ->
+  forall (Rt : Routing) (cfg : string) (E : list sid) (F : fs) (s : string) (x : sid) (p : string),
+  dataset_ok Ld (default_cfg Ld cfg) E F ->
+  Sid Ld s = Ok x ->
+  naturally_typed Ld x ->
+  concrete Ld x ->
+  path_values_ok x ->
+  sid_path Ld x (default_cfg Ld cfg) = Ok (Some p) -> w_create Ld Rt F cfg s [] = Raise SpilException <-> In x E.
+Proof. exact create_existing_iff. Qed.
+Print Assumptions C15_create_existing_iff.
+
+(* any history of creations from the empty tree *)
+Theorem C15_history_invariant :
+  forall (c : Conf) (Ld : Loaded),
+  load c = Some Ld ->
+  wf_loadedb Ld = true ->
+  paths_unambiguousb Ld = true ->
+  forall (Rt : Routing) (cfg : string) (ss : list string),
+  dataset_okb Ld (default_cfg Ld cfg) [] fs_root = true ->
+  hist_okb Ld cfg ss = true ->
+  dataset_ok Ld (default_cfg Ld cfg) (closure Ld cfg (created Ld Rt cfg fs_root ss)) (run_creates Ld Rt cfg fs_root ss) /\
+  fs_inv (run_creates Ld Rt cfg fs_root ss).
+Proof. exact history_from_root. Qed.
+Print Assumptions C15_history_invariant.
+
+(* exists() after any history: true exactly when the Sid or a descendant of it was created *)
+Theorem C15_exists_after_history :
+  forall (c : Conf) (Ld : Loaded),
+  load c = Some Ld ->
+  wf_loadedb Ld = true ->
+  paths_unambiguousb Ld = true ->
+  forall (Rt : Routing) (cfg id : string) (ss : list string) (x : sid) (b : bool),
+  dataset_okb Ld (default_cfg Ld cfg) [] fs_root = true ->
+  hist_okb Ld cfg ss = true ->
+  exists_guardb Ld Rt id (default_cfg Ld cfg) x = true ->
+  sid_exists Ld Rt (run_creates Ld Rt cfg fs_root ss) x = Ok b ->
+  b = true <->
+  (exists (s : string) (z : sid) (p : string),
+     In s (created Ld Rt cfg fs_root ss) /\
+     Sid Ld s = Ok z /\ sid_path Ld z (default_cfg Ld cfg) = Ok (Some p) /\ anc_with_path Ld (default_cfg Ld cfg) z x).
+Proof. exact exists_after_history. Qed.
+Print Assumptions C15_exists_after_history.
+
+(* ... and false on the empty tree *)
+Theorem C15_exists_before :
+  forall (c : Conf) (Ld : Loaded),
+  load c = Some Ld ->
+  wf_loadedb Ld = true ->
+  paths_unambiguousb Ld = true ->
+  forall (Rt : Routing) (cfg id : string) (x : sid) (b : bool),
+  dataset_okb Ld (default_cfg Ld cfg) [] fs_root = true ->
+  exists_guardb Ld Rt id (default_cfg Ld cfg) x = true -> sid_exists Ld Rt fs_root x = Ok b -> b = false.
+Proof. exact exists_before. Qed.
+Print Assumptions C15_exists_before.
+
+(* instance on the configuration of this run: the guards hold for a history of creations, and what exists() answers *)
+Definition Rt15 : Routing := match parse_routing Hamlet.raw with Some r => r | None => mkRouting [] [] false end.
+Definition hist15 : list string :=
+  ["hamlet/a/char/ophelia/model/v001/w/ma"; "hamlet/a/char/ophelia/model/v001/w/ma"; "hamlet/a/char/ophelia";
+   "hamlet/a/char/ophelia/model/v001/w"; "hamlet/s/sq010/sh0010/anim/v002/p/mov"; "hamlet/a/prop/skull"].
+Example C15_instance :
+  dataset_okb Hamlet.the_loaded (default_cfg Hamlet.the_loaded "") [] fs_root = true /\
+  hist_okb Hamlet.the_loaded "" hist15 = true /\
+  map (fun s => match Sid Hamlet.the_loaded s with
+                | Ok x => sid_exists Hamlet.the_loaded Rt15 (run_creates Hamlet.the_loaded Rt15 "" fs_root hist15) x
+                | Raise e => Raise e end)
+      ["hamlet/a/char/ophelia/model/v001"; "hamlet/a/char/ophelia/rig"; "hamlet/a/prop/skull"; "hamlet/s/sq010/sh0010/anim"; "hamlet/s/sq010/sh0020"]
+  = [Ok true; Ok false; Ok true; Ok true; Ok false].
+Proof. vm_compute. repeat split; reflexivity. Qed.
+Print Assumptions C15_instance.
